@@ -70,6 +70,8 @@ PROP_ASSUMPTIONS = {
         "Model/Guards.lean hand-written from validation/mod.rs (DepthCounter, DepthGuard, RecursionStack, DiagnosticList::sort) and validation/fragment.rs (detect_fragment_cycles)",
         "slice::sort_by_key is a stable sort (std documentation); modelled by List.mergeSort",
         "the HashSet `seen` of detect_fragment_cycles is modelled as a list (membership only)",
+        "a leaf field is a nested, empty selection set for detect_fragment_cycles (the code recurses into field.selection_set unconditionally); the harness encodes it that way",
+        "the frame size of detect_fragment_cycles is not modelled: the theorem bounds the number of frames (<= 501), the 2 MiB child-process runs show that this many frames fit",
         "fragment definitions are validated once each when spread directly from the operation (harness spreads every fragment at the top level)",
     ],
     "C22": [
